@@ -179,7 +179,7 @@ def run_impl_only(ctx, res, cases, oracle):
             if f:
                 short = lambda l: [x if len(x) < 400 else x[:200] + f'...({len(x)} chars)' for x in l]
                 res.failures.append({'kind': 'oracle', 'entry': name, 'rust_type': catalogue.rust_type(e), 'profile': prof,
-                                     'history': short([op_str(o) for o in ops]), 'what': f, 'generator': 'C18 large-allocation batch (deterministic)',
+                                     'history': short([op_str(o) for o in ops]), 'what': f, 'generator': 'implementation-and-oracle-only batch (too large for the list-based model)',
                                      'observed': short([' '.join(g) for g in io]), 'known': None})
 def run_regions(ctx, res, cases, oracle, mode, known_ok=True):
     """cases: list of (entry name, ops).  Runs implementation and model in both profiles, applies
@@ -1578,14 +1578,19 @@ def c17(ctx):
             ops += [('heap', 0), ('allocs', 0)] + [('push', 0, f, v) for v in batch] + [('allocs', 0), ('heap', 0), ('probe', 0)]
             cases.append((name, ops)); note_case(res, name, ops)
     import math
-    K = 8 if not ctx.thorough else 12   # 2^14 pushes per entry made the list-based model quadratic for half an hour
+    # 2^k pushes per entry.  The extracted model keeps indices as unary nat (ExtrOcamlBasic only), so the indices it
+    # logs cost memory quadratic in the number of pushes (7 GB at 2^12 for the slice entries: one model process was
+    # OOM-killed in the thorough tier): the model runs up to 2^10, the implementation and the oracle (allocator calls
+    # against the logarithmic bound, which needs no model) up to 2^14 in the thorough tier.
+    K = 8 if not ctx.thorough else 14
+    long_cases = []
     for name, e in ENTRIES:
         if is_known_bad(e) or coded(e): continue   # the logarithmic bound is stated for non-coded regions
         for k in range(6, K + 1, 2):
             hg = HistGen(ctx, name, e); f = ref_form(e)
             hg.vg.big = False
             ops = [('allocs', 0)] + [('push', 0, f, hg.value(repeat=0.1)) for _ in range(2 ** k)] + [('allocs', 0), ('heap', 0)]
-            cases.append((name, ops))
+            (cases if k <= 10 else long_cases).append((name, ops))
     def clause(t, op, g, ref, sc):
         k = op[0]
         if k in ('resitems', 'resregs', 'merge'): sc['armed'] = t
@@ -1613,6 +1618,7 @@ def c17(ctx):
         return None
     def oracle(e, ops, obs, mo=None):
         return ref_oracle(e, ops, obs, [clause], mo)
+    if long_cases: run_impl_only(ctx, res, long_cases, oracle)
     # correspondence: the reserved capacities cover what the model needs
     hist = [(nm, [op_str(o) for o in ops]) for nm, ops in cases]
     for prof in PROFILES:
